@@ -1,6 +1,6 @@
 //verif:pkg .
 //verif:use streams_mcp
-//verif:bound one session, an old listening stream and a new one; deterministic kernels: (a) a send issued at the very moment the new stream's headers are flushed, (b) a send after the old stream's handler has exited, (c) a stream whose request context ends removes only itself; exploration kernel: old GET, new GET and a sender as three goroutines under all schedules at the modelled synchronisation points with <= 2 (thorough 4) forced context switches (engine only)
+//verif:bound one session, an old listening stream and a new one; deterministic kernels: (a) a send issued at the very moment the new stream's headers are flushed, (b) a send after the old stream's handler has exited, (c) a stream whose request context ends removes only itself; exploration kernels: (d) old GET, new GET and a sender, (e) an old stream ending through its own request context while a new GET registers, then a send as three goroutines under all schedules at the modelled synchronisation points with <= 2 (thorough 4) forced context switches (engine only)
 //verif:assume more than one reconnect generation and real network timing are outside the claim
 package mcp
 
@@ -116,5 +116,33 @@ func H_C11_explore() {
 	vAssert("old-stream-closed", c11Wait(old.done))
 	err2 := srv.SendNotification(id, "n/marker", map[string]interface{}{"m": "MARK4"})
 	vAssert("still-owned-after-old-exit", vAnd(err2 == nil, c11Has(nw.rec, "MARK4")))
+	vReach("end")
+}
+
+// H_C11_explore_old_ends_itself: the old stream ends for its own reason (its request context is cancelled)
+// while a new GET for the same session is being registered; a sender waits for the new stream's headers.
+// Every schedule with a bounded number of preemptions at synchronisation operations.
+func H_C11_explore_old_ends_itself() {
+	vRandConcrete(true)
+	srv := NewServer("srv", "1.0", WithPostSSEEnabled(false))
+	id := c11Session(srv)
+	vAssume(id != "")
+	old := c11Open(srv, id, nil)
+	vAssume(c11Wait(old.flushed))
+	budget := 2
+	if vTier() == 1 {
+		budget = 3
+	}
+	vSched(true, budget)
+	old.cancel()
+	nw := c11Open(srv, id, nil)
+	<-nw.flushed
+	<-old.done
+	vSched(false, 0)
+	err := srv.SendNotification(id, "n/marker", map[string]interface{}{"m": "MARK5"})
+	vAssert("send-after-headers-succeeds", err == nil)
+	vQuiesce()
+	vAssert("delivered-on-new-stream", c11Has(nw.rec, "MARK5"))
+	vAssert("not-on-old-stream", !c11Has(old.rec, "MARK5"))
 	vReach("end")
 }
